@@ -160,29 +160,49 @@ func ruleLALRK(c *Ctx) {
 			c.Lost(rule, key, "function not found")
 		} else {
 			found := false
+			// the flag: the boolean that governs `conflict.Resolved = true`
+			flagPhis := map[*ssa.Phi]bool{}
 			for _, b := range f.Blocks {
 				for _, ins := range b.Instrs {
-					ph, ok := ins.(*ssa.Phi)
-					if !ok || ph.Comment != "resolved" {
+					st, ok := ins.(*ssa.Store)
+					if !ok || !strings.HasSuffix(vpath(st.Addr), ".Resolved") || vpath(st.Val) != "true" {
 						continue
 					}
-					found = true
-					var bad []string
-					for _, e := range ph.Edges {
-						switch x := e.(type) {
-						case *ssa.Const:
-						case *ssa.Phi:
-							if x.Comment != "resolved" {
-								bad = append(bad, vpath(e))
+					for _, g := range flattenConds(governing(b)) {
+						if ph, ok := g.V.(*ssa.Phi); ok && g.Pol {
+							var collect func(p *ssa.Phi, d int)
+							collect = func(p *ssa.Phi, d int) {
+								if flagPhis[p] || d > 4 {
+									return
+								}
+								flagPhis[p] = true
+								for _, e := range p.Edges {
+									if q, ok := e.(*ssa.Phi); ok {
+										collect(q, d+1)
+									}
+								}
 							}
-						default:
-							bad = append(bad, normalizePhi(vpath(e)))
+							collect(ph, 0)
 						}
 					}
-					// constants: only `true` may enter from outside the terminal loop
-					if len(bad) > 0 {
-						c.Bad(rule, key, ph.Pos(), "the per-conflict flag `resolved` is overwritten with %v inside the loop over lookahead terminals: a later resolvable terminal hides an earlier unresolvable one and the conflict is silently dropped", bad)
+				}
+			}
+			for ph := range flagPhis {
+				found = true
+				var bad []string
+				for _, e := range ph.Edges {
+					switch x := e.(type) {
+					case *ssa.Const:
+					case *ssa.Phi:
+						if !flagPhis[x] {
+							bad = append(bad, vpath(e))
+						}
+					default:
+						bad = append(bad, normalizePhi(vpath(e)))
 					}
+				}
+				if len(bad) > 0 {
+					c.Bad(rule, key, ph.Pos(), "the per-conflict flag that decides `conflict.Resolved = true` is overwritten with %v inside the loop over lookahead terminals: a later resolvable terminal hides an earlier unresolvable one and the conflict is silently dropped", bad)
 				}
 			}
 			if !found {
